@@ -221,7 +221,7 @@ def _exists(s, o):
         return False
 
 
-def h_verify_damage(kind: int, fsel: int, pos: int, gz: bool, quick: bool) -> None:
+def h_verify_damage(kind: int, fsel: int, pos: int, gz: bool, quick: bool, chains: int = 1) -> None:
     """Any single-file damage of the repository is detected by verify (sizes only in quick mode)."""
     with untraced():
         env = _setup()
@@ -234,8 +234,17 @@ def h_verify_damage(kind: int, fsel: int, pos: int, gz: bool, quick: bool) -> No
         _backup(env, 1, False, False, gz, False)
         h.commit([(T.oid(3), b'even-more')])
         _backup(env, 2, False, False, gz, False)
+        if chains == 2:
+            # a second chain in the same repository: another full backup and an incremental (older chain kept)
+            h.commit([(T.oid(1), b'second-chain-1')])
+            _backup(env, 3, True, False, gz, False)
+            h.commit([(T.oid(3), b'second-chain-2')])
+            _backup(env, 4, False, False, gz, False)
         st.close()
         files = sorted(nm for nm in env.fs.os.listdir(REPO) if not nm.endswith(('.dat', '.index')))
+        if chains == 2:
+            # (verify judges the chain that recover would use: the newest one; the older chain is merely kept)
+            files = [nm for nm in files if nm >= '%04d-%02d-%02d-%02d-%02d-%02d' % _stamp(3)]
     k = choose(kind, 3)
     f = REPO + '/' + files[choose(fsel, len(files))]
     with untraced():
@@ -450,8 +459,8 @@ HARNESSES = [
             symbolic='damage kind selector, file selector, solver-chosen position over the whole file', bounds='repository of 1 full + 2 incrementals',
             oracle='VerificationFail expected',
             code=['repozo.do_verify', 'get_checksum_and_size_of_file', 'get_checksum_and_size_of_gzipped_file', 'do_recover (withverify)'],
-            quick=dict(timeout=170, shards=shards(gz=[False, True], quick=[False]) + shards(gz=[False], quick=[True])),
-            thorough=dict(timeout=600, shards=shards(gz=[False, True], quick=[False, True]))),
+            quick=dict(timeout=170, shards=shards(gz=[False, True], quick=[False], chains=[1]) + shards(gz=[False], quick=[True], chains=[1]) + shards(gz=[False], quick=[False], chains=[2])),
+            thorough=dict(timeout=600, shards=shards(gz=[False, True], quick=[False, True], chains=[1, 2]))),
 ]
 
 MANIFEST = dict(
